@@ -66,9 +66,30 @@ pub fn set_in_sim(on: bool) {
     IN_SIM.with(|c| c.set(on));
 }
 
+/// While a simulated process runs, threads IT starts (a worker pool, an async runtime's threads)
+/// belong to it too: their file, console, clock and entropy calls are the simulated process's.
+/// Simulated processes run one at a time and the thread that started one only waits for it.
+static PROCESS_RUNNING: std::sync::atomic::AtomicBool = std::sync::atomic::AtomicBool::new(false);
+
+pub fn set_process_running(on: bool) {
+    PROCESS_RUNNING.store(on, Ordering::SeqCst);
+}
+
+thread_local! {
+    /// the harness's own thread that drives simulated processes is never part of one
+    static DRIVER_THREAD: Cell<bool> = const { Cell::new(false) };
+}
+
+pub fn mark_driver_thread() {
+    DRIVER_THREAD.with(|c| c.set(true));
+}
+
 #[inline]
 fn in_sim() -> bool {
-    IN_SIM.try_with(|c| c.get()).unwrap_or(false)
+    if IN_SIM.try_with(|c| c.get()).unwrap_or(false) {
+        return true;
+    }
+    PROCESS_RUNNING.load(Ordering::Relaxed) && !DRIVER_THREAD.try_with(|c| c.get()).unwrap_or(true)
 }
 
 macro_rules! real {
